@@ -21,6 +21,9 @@ vars == <<pc, C, enforced, offered, reply, best, scan, adopted, sent>>
 None == 99
 NotSupported == <<None>>     \* the server answers "operation not supported"
 OtherError == <<98>>         \* the server answers the discovery request with any other error
+\* ... among them: the reason "operation not supported" under a status that is not Failed (97: Pending, 96: Undone) - not the
+\* answer of a server that lacks the operation, so no fallback to 1.0
+OtherErrors == {OtherError, <<97>>, <<96>>}
 Range(s) == {s[k] : k \in 1..Len(s)}
 Max(S) == CHOOSE x \in S : \A y \in S : y <= x
 
@@ -57,7 +60,7 @@ Reply(r) == /\ pc = "offered"
             /\ UNCHANGED <<C, enforced, offered, best, adopted, sent>>
 
 \* the client scans the list once, keeping the highest version that is in its own set
-Scan == /\ pc = "scan" /\ reply \notin {NotSupported, OtherError} /\ scan <= Len(reply)
+Scan == /\ pc = "scan" /\ reply \notin ({NotSupported} \cup OtherErrors) /\ scan <= Len(reply)
         /\ best' = IF reply[scan] \in C /\ (best = None \/ reply[scan] > best) THEN reply[scan] ELSE best
         /\ scan' = scan + 1
         /\ UNCHANGED <<pc, C, enforced, offered, reply, adopted, sent>>
@@ -65,8 +68,8 @@ Scan == /\ pc = "scan" /\ reply \notin {NotSupported, OtherError} /\ scan <= Len
 Adopt == /\ pc = "scan"
          /\ \/ /\ reply = <<None>>                         \* fall back to 1.0 only if the client accepts it
                /\ IF 0 \in C THEN adopted' = 0 /\ pc' = "connected" ELSE adopted' = None /\ pc' = "failed"
-            \/ /\ reply = OtherError /\ adopted' = None /\ pc' = "failed"
-            \/ /\ reply \notin {NotSupported, OtherError} /\ scan > Len(reply)
+            \/ /\ reply \in OtherErrors /\ adopted' = None /\ pc' = "failed"
+            \/ /\ reply \notin ({NotSupported} \cup OtherErrors) /\ scan > Len(reply)
                /\ IF best # None THEN adopted' = best /\ pc' = "connected" ELSE adopted' = None /\ pc' = "failed"
          /\ UNCHANGED <<C, enforced, offered, reply, best, scan, sent>>
 
@@ -79,7 +82,7 @@ Request == /\ pc = "connected" /\ Len(sent) < NReq
 \* is, named because the implementation has code on it - and a recorded offer after it is not a behaviour of this specification.)
 Reconnect == /\ pc = "connected" /\ UNCHANGED vars
 
-Next == Reconnect \/ Enforce \/ Offer \/ (\E r \in Replies \cup {NotSupported, OtherError} : Reply(r)) \/ Scan \/ Adopt \/ Request
+Next == Reconnect \/ Enforce \/ Offer \/ (\E r \in Replies \cup {NotSupported} \cup OtherErrors : Reply(r)) \/ Scan \/ Adopt \/ Request
 Spec == Init /\ [][Next]_vars
 
 -----------------------------------------------------------------------------
